@@ -520,7 +520,41 @@ pub fn exec_op(sim: &mut Sim, op: &str) -> (Outcome, usize) {
 
 pub fn gen_ops(rng: &mut Rng, len: usize) -> Vec<String> {
     let mut ops = Vec::new();
-    for _ in 0..len {
+    while ops.len() < len {
+        // legit bursts keep the channel moving so that refusals are reached from many states
+        match rng.below(12) {
+            0 | 1 => {
+                // a complete holder update
+                ops.push(format!("vh 0 g {}", rng.below(9)));
+                ops.push("rv 0".to_string());
+                continue;
+            }
+            2 | 3 => {
+                // a complete counterparty update: sign n, sign n+1, revoke n
+                ops.push(format!("scp 0 {}", rng.below(9)));
+                if rng.chance(2, 3) {
+                    ops.push(format!("scp 0 {}", rng.below(9)));
+                    ops.push("cpr 0 g".to_string());
+                }
+                continue;
+            }
+            4 => {
+                // approach the invoice limit
+                for _ in 0..rng.range(2, 5) {
+                    ops.push(format!("ks {}", *rng.pick(&[1000u64, 2000, 5_000_000])));
+                }
+                continue;
+            }
+            5 => {
+                // retire and re-use channel ids
+                let a = rng.range(2, 6);
+                ops.push(format!("newch {}", a));
+                ops.push(format!("forget {}", rng.range(1, 3)));
+                ops.push(format!("newch {}", rng.range(1, a)));
+                continue;
+            }
+            _ => {}
+        }
         let d = *rng.pick(&[0i64, 0, 0, 0, 1, -1, 2, -2]);
         let op = match rng.below(30) {
             0..=4 => format!("vh {} {} {}", d, if rng.chance(4, 5) { "g" } else { "b" }, rng.below(9)),
@@ -532,7 +566,7 @@ pub fn gen_ops(rng: &mut Rng, len: usize) -> Vec<String> {
             17..=19 => format!("al {} {}", rng.pick(&["add", "set", "rm"]), rng.pick(&["g", "g2", "b", "m", "gg"])),
             20..=21 => format!("ks {}", *rng.pick(&[1000u64, 5_000_000, 100_000_000_000, 0])),
             22 => format!("ksdup {}", rng.range(1, 5000)),
-            23 => format!("newch {}", rng.range(2, 6)),
+            23 => format!("newch {}", rng.range(1, 6)),
             24 => format!("forget {}", rng.below(3)),
             25 => "hb".to_string(),
             26..=27 => format!("blk+ {}", if rng.chance(3, 4) { "g" } else { "b" }),
